@@ -55,9 +55,9 @@ static const char *ENVNAME = "real";
 
 /* ------------------------------------------------------------------ ops */
 enum { O_BLK0, O_BLK1, O_T0, O_T50, O_TNEG, O_KA0, O_KA1, O_BACKLOG, O_BIND, O_LISTEN, O_CONN_OK, O_CONN_REFUSED, O_ACCEPT, O_SEND, O_RECV, O_WAIT_IN, O_SHUT_W, O_SHUT_RW, O_CLOSE,
-       O_PCONN, O_PSEND, O_PCLOSE, O_SENDTO, O_RECVFROM, O_PSENDTO, O_ACC_NBRECV, O_CONN_SILENT, O_CONN_AGAIN, NOPS };
+       O_PCONN, O_PSEND, O_PCLOSE, O_SENDTO, O_RECVFROM, O_PSENDTO, O_ACC_NBRECV, O_CONN_SILENT, O_CONN_AGAIN, O_CONN_REPEAT, NOPS };
 static const char *ON[NOPS] = {"nonblocking", "blocking", "timeout0", "timeout50", "timeout-5", "keepalive0", "keepalive1", "backlog3", "bind", "listen", "connect-listening", "connect-closed-port", "accept", "send", "receive", "wait-in", "shutdown-w", "shutdown-rw", "close",
-                               "peer-connects", "peer-sends", "peer-closes", "send_to", "receive_from", "peer-send_to", "accepted-socket-nonblocking-receive", "connect-silent-peer", "connect-again-while-pending"};
+                               "peer-connects", "peer-sends", "peer-closes", "send_to", "receive_from", "peer-send_to", "accepted-socket-nonblocking-receive", "connect-silent-peer", "connect-again-while-pending", "connect-again-when-connected"};
 static int DGRAM, FAM, FROMFD;          /* FROMFD: the socket under test is built by p_socket_new_from_fd around a descriptor the harness made (kinds stream-fd / dgram-fd) */
 static const char *KINDNAME = "stream";
 
@@ -74,7 +74,7 @@ static void ref_step(Ref *t, int o)
     case O_BACKLOG: if (!t->listening) t->backlog = 3; break; case O_BIND: if (!t->closed) t->bound = 1; break; case O_LISTEN: if (!t->closed && !DGRAM) t->listening = 1; break;
     case O_CONN_OK: if (!t->closed) { t->connected = 1; t->have_peer_conn = 1; t->peer_listening = 1; } break;
     case O_CONN_SILENT: t->have_peer_conn = 1; t->bound = 1; t->silent = 1; break;
-    case O_CONN_AGAIN: break;
+    case O_CONN_AGAIN: case O_CONN_REPEAT: break;
     case O_CONN_REFUSED: if (!t->closed) t->have_peer_conn = 1; break;      /* what a socket may still do after a refused connect is not defined: only options and close follow */
     case O_ACCEPT: if (!t->closed && t->pending > 0) { t->pending--; t->acc_open = 1; } break;
     case O_RECV: if (!t->closed && t->rx > 0) t->rx -= t->rx < 4 ? t->rx : 4; break;
@@ -102,6 +102,7 @@ static int op_applicable(const Ref *r, int op)
     case O_LISTEN: return (r->bound && !r->connected && !r->listening && !r->have_peer_conn) || r->closed;
     case O_CONN_OK: case O_CONN_REFUSED: return (!r->connected && !r->listening && !r->bound && !r->have_peer_conn) || r->closed;
     case O_CONN_SILENT: return !r->connected && !r->listening && !r->bound && !r->have_peer_conn && !r->closed;
+    case O_CONN_REPEAT: return r->connected && r->peer_listening && !r->closed && !r->shut_w && !r->peer_closed;      /* asking again on a connected socket (not a half-closed one): whatever the answer, the socket stays connected */
     case O_CONN_AGAIN: return r->silent && !r->closed;         /* asking again while the handshake is pending: same answer as the first time */
     case O_ACCEPT: return (r->listening && !r->acc_open) || r->closed;
     case O_SEND: return (r->connected && !r->shut_w && !r->peer_closed) || r->closed;
@@ -261,6 +262,7 @@ static void do_op(const Ref *pre, int op)
         if (res) viol("connect/silent-peer-connected", "connect to a listener with a full accept queue reported success");
         else { Ref t = *pre; if (!t.blocking) { if (!e || p_error_get_code(e) != (pint)P_ERROR_IO_IN_PROGRESS) viol("nonblocking/connect/wrong-error", "non-blocking connect that cannot complete reported %s instead of in-progress", ec(e)); if (env_clock() != t0 || env_blocking_polls() != p0) viol("nonblocking/connect/waited", "non-blocking connect waited"); } else check_wait_rules(&t, "connect", 0, ec(e), env_clock() - t0, env_blocking_polls() - p0, 0); }
         break; }
+    case O_CONN_REPEAT: { PSocketAddress *a = lib_addr(port_of(peer_listen)); res = p_socket_connect(sut, a, &e); p_socket_address_free(a); break; }
     case O_CONN_AGAIN: {
         PSocketAddress *a = lib_addr(port_of(peer_listen)); res = p_socket_connect(sut, a, &e); p_socket_address_free(a);
         if (res) viol("connect/silent-peer-connected", "a second connect while the handshake with a silent listener is pending reported success");
